@@ -32,6 +32,7 @@ type World struct {
 	cg       *callgraph.Graph
 	whole    bool
 	LoadS    float64
+	Overlay  map[string][]byte // witness edits (absolute path → content); also honoured by the Solidity reader
 }
 
 func repoDir() string {
@@ -98,7 +99,7 @@ func LoadWorld(tier string, whole bool, overlay map[string][]byte) (*World, erro
 		return nil, fmt.Errorf("type-check errors in repository packages: %s", strings.Join(errs, "; "))
 	}
 	w := &World{Tier: tier, Repo: repoDir(), Pkgs: pkgs, ByPath: map[string]*packages.Package{},
-		SSA: map[string]*ssa.Package{}, whole: whole}
+		SSA: map[string]*ssa.Package{}, whole: whole, Overlay: overlay}
 	w.Fset = pkgs[0].Fset
 	bmode := ssa.InstantiateGenerics
 	var prog *ssa.Program
